@@ -2,6 +2,7 @@
 from .. import common, gen, trees
 
 LEVEL = "proof"
+EXTRA_LEAN_MODULES = ["Luqum.Props.GenClone"]   # clone_item translated from the source (tools/pysym.py)
 RULE = ("histories of visits: 2-4 probe visitor classes (handlers for a random subset of item classes and base "
         "classes, traversal not overridden) x 1-2 instances each x 2-4 trees (parsed and programmatic, operations "
         "with 0..n operands, NoneItem); plus the default TreeTransformer / PathTrackingTransformer on every tree. "
@@ -51,7 +52,7 @@ def run(ctx):
     for h in range(n_hist):
         tlist = []
         for _ in range(rng.choice([2, 3, 4])):
-            origin, d = trees.mixed_tree(ctx, rng, p_parsed=0.4, layout="partial", names=True, none_items=0.05)
+            origin, d = trees.mixed_tree(ctx, rng, p_parsed=0.4, layout="partial", names=True, none_items=0.08)
             tlist.append(d)
         classes = []
         for k in range(rng.choice([2, 3, 4])):
@@ -67,7 +68,7 @@ def run(ctx):
         # interleave visits
         order = [(i, j) for i in range(len(instances)) for j in range(len(tlist))]
         rng.shuffle(order)
-        objs = [common.load_tree(d) for d in tlist]
+        objs = [trees.use_placeholder_singleton(common.load_tree(d), rng) for d in tlist]
         snaps = [trees.snapshot(o) for o in objs]
         for i, j in order:
             hs, inst, log = instances[i]
@@ -127,7 +128,7 @@ def run(ctx):
                 problems = []
                 if not (c == o) or not (o == c):
                     problems.append("the copy is not equal to the input")
-                if trees.shares_nodes(o, c):
+                if trees.shares_nodes(o, c, placeholders_ok=False):
                     problems.append("the copy shares a node with the input")
                 if c.__str__(head_tail=True) != o.__str__(head_tail=True) or str(c) != str(o):
                     problems.append("the copy prints differently")
